@@ -120,7 +120,11 @@ through the verif hook; non-trivial = at least 2 alternative complete paths (som
         }
         let totals_s = nodes.iter().map(|x| if x.total == i32::MAX { "x".to_string() } else { x.total.to_string() }).collect::<Vec<_>>().join(",");
         let ans = if full {
-            format!("ok totals={} eos={} path={}", totals_s, eos.map_or("x".to_string(), |e| e.2.to_string()), path_cost.map_or("x".to_string(), |c| c.to_string()))
+            // the node list of the returned path pins the tie rule (first minimum in row order) against the model's argmin
+            let path_s = if path_cost.is_some() {
+                path_nodes.iter().map(|x| format!("{}:{}:{}:{}:{}", x.b, x.e, x.l, x.r, x.c)).collect::<Vec<_>>().join(";")
+            } else { "x".to_string() };
+            format!("ok totals={} eos={} path={} nodes={}", totals_s, eos.map_or("x".to_string(), |e| e.2.to_string()), path_cost.map_or("x".to_string(), |c| c.to_string()), path_s)
         } else {
             format!("ok totals={}", totals_s)
         };
